@@ -28,13 +28,21 @@ theorem C01_agents_shuffle_draws {α : Type} (l : List α) (g : Rng) :
 
 /-- `AgentSet.shuffle` on the store: the resulting order and the remaining draws are a function of the ordered members
     of the set and the draws alone — two stores that differ in everything else (attributes, other sets, dead agents, the
-    in-place flag) produce the same order and leave the same draws. -/
+    in-place flag) produce the same order and leave the same draws; the set the call returns (the set itself for
+    `inplace=True`, the new one otherwise) holds exactly `Rng.shuffle` of the members, whichever flag. -/
 theorem C01_agents_shuffle_function_of_members_and_script (st st' : Store) (s s' : Nat) (i i' : Bool)
     (hm : st.get s = st'.get s') (hg : st.rng = st'.rng) :
     (shuffle st s i).1.rng = (shuffle st' s' i').1.rng ∧
     ((shuffle st s false).1.sets.getLast? = (shuffle st' s' false).1.sets.getLast?) ∧
-    (shuffle st s i).1.rng.script = st.rng.script.drop ((st.get s).length - 1) := by
-  refine ⟨?_, ?_, ?_⟩
+    (shuffle st s i).1.rng.script = st.rng.script.drop ((st.get s).length - 1) ∧
+    (s < st.sets.length → s' < st'.sets.length →
+      (shuffle st s i).1.get (shuffle st s i).2 = (Rng.shuffle (st.get s) st.rng).1 ∧
+      (shuffle st s i).1.get (shuffle st s i).2 = (shuffle st' s' i').1.get (shuffle st' s' i').2) := by
+  have hres : ∀ (st : Store) (s : Nat) (i : Bool), s < st.sets.length →
+      (shuffle st s i).1.get (shuffle st s i).2 = (Rng.shuffle (st.get s) st.rng).1 := by
+    intro st s i hs
+    cases i <;> simp [shuffle, Store.put, Store.get, hs]
+  refine ⟨?_, ?_, ?_, fun hs hs' => ⟨hres st s i hs, by rw [hres st s i hs, hres st' s' i' hs', hm, hg]⟩⟩
   · simp only [shuffle, put_rng, hm, hg]
   · simp only [shuffle, Store.put, hm, hg]
     simp
@@ -93,19 +101,236 @@ end Mesa.ASet
 
 namespace Mesa.Agents
 
+/-- the generators of the world, one per model, in the order the models were made -/
+def gens (w : World) : List Rng := w.regs.map (·.rng)
+
+theorem gens_congr {w w' : World} (h : w'.regs = w.regs) : gens w' = gens w := by simp [gens, h]
+
+theorem map_rng_set {l : List Reg} {m : Nat} {r r' : Reg} (h : l[m]? = some r) (hr : r'.rng = r.rng) :
+    (l.set m r').map (·.rng) = l.map (·.rng) := by
+  apply List.ext_getElem?
+  intro j
+  simp only [List.getElem?_map, List.getElem?_set]
+  split
+  · rename_i hmj
+    subst hmj
+    split
+    · simp [h, hr]
+    · rename_i hlt
+      exact absurd (List.getElem?_eq_some_iff.mp h).1 hlt
+  · rfl
+
+theorem deregister_rng (r : Reg) (a : Aid) (ty : Ty) : (r.deregister a ty).rng = r.rng := by
+  unfold Reg.deregister
+  repeat' split
+  all_goals first | rfl | (simp only []; split <;> rfl)
+
+theorem removeAgent_gens (w : World) (a : Aid) : gens (removeAgent w a) = gens w := by
+  unfold removeAgent
+  cases hi : w.info[a]? with
+  | none => rfl
+  | some i =>
+    simp only []
+    cases hr : w.regs[i.model]? with
+    | none => rfl
+    | some r => exact map_rng_set hr (deregister_rng r a i.ty)
+
+theorem createAgent_gens (w : World) (m : Nat) (ty : Ty) (hold : Bool) (x : Payload) :
+    gens (createAgent w m ty hold x) = gens w := by
+  unfold createAgent
+  cases hr : w.regs[m]? with
+  | none => rfl
+  | some r => exact map_rng_set hr rfl
+
+theorem createN_gens (w : World) (m : Nat) (ty : Ty) (hold : Bool) (xs : List Payload) :
+    gens (createN w m ty hold xs) = gens w := by
+  unfold createN
+  induction xs generalizing w with
+  | nil => rfl
+  | cons x xs ih => rw [List.foldl_cons, ih, createAgent_gens]
+
+theorem setAdd_gens (w : World) (k : Nat) (b : Aid) : gens (setAdd w k b) = gens w := by
+  unfold setAdd
+  repeat' split
+  all_goals rfl
+
+theorem setDiscard_gens (w : World) (k : Nat) (b : Aid) : gens (setDiscard w k b) = gens w := by
+  unfold setDiscard
+  split <;> rfl
+
+theorem runAction_gens (self : Aid) (w : World) (act : Action) : gens (runAction self w act) = gens w := by
+  cases act with
+  | rmSelf => exact removeAgent_gens w self
+  | rm b => exact removeAgent_gens w b
+  | create m ty n hold => exact createN_gens w m ty hold _
+  | unhold b => rfl
+  | addTo k b => exact setAdd_gens w k b
+  | discardFrom k b => exact setDiscard_gens w k b
+
+theorem walk_gens (script : Aid → List Action) (arg : Nat) (w : World) (refs : List Aid) :
+    gens (walk script arg w refs) = gens w := by
+  induction refs generalizing w with
+  | nil => rfl
+  | cons a refs ih =>
+    rw [walk_cons, ih]
+    unfold turn
+    split
+    · unfold invoke
+      generalize script a = acts
+      have : gens ({ w with log := w.log ++ [(a, arg)] } : World) = gens w := rfl
+      rw [← this]
+      generalize ({ w with log := w.log ++ [(a, arg)] } : World) = w'
+      induction acts generalizing w' with
+      | nil => rfl
+      | cons act acts ih2 => rw [List.foldl_cons, ih2, runAction_gens]
+    · rfl
+
+theorem groups_gens (script : Aid → List Action) (arg : Nat) (gs : List (Nat × List Aid)) (w : World) :
+    gens (gs.foldl (fun w g => walk script arg w (g.2.filter (alive w))) w) = gens w := by
+  induction gs generalizing w with
+  | nil => rfl
+  | cons g gs ih => rw [List.foldl_cons, ih, walk_gens]
+
+theorem foldl_removeAgent_gens (l : List Aid) (w : World) : gens (l.foldl removeAgent w) = gens w := by
+  induction l generalizing w with
+  | nil => rfl
+  | cons a l ih => rw [List.foldl_cons, ih, removeAgent_gens]
+
+theorem byTypeSet_rng_frame (w : World) (t : Target) (l : List Aid) : gens (setRaw w t l) = gens w := by
+  cases t with
+  | all m =>
+    simp only [setRaw]
+    cases hr : w.regs[m]? with
+    | none => rfl
+    | some r => exact map_rng_set hr rfl
+  | byType m ty =>
+    simp only [setRaw]
+    cases hr : w.regs[m]? with
+    | none => rfl
+    | some r => exact map_rng_set hr rfl
+  | set k =>
+    simp only [setRaw]
+    cases hs : w.sets[k]? with
+    | none => rfl
+    | some p => rfl
+
+theorem setRng_gens (w : World) (m : Nat) (g : Rng) : gens (setRng w m g) = (gens w).set m g := by
+  apply List.ext_getElem?
+  intro j
+  simp only [gens, List.getElem?_map, setRng_regs, List.getElem?_set, List.length_map]
+  cases hj : w.regs[j]? with
+  | none =>
+    have : ¬ j < w.regs.length := fun h => by simp [List.getElem?_eq_getElem h] at hj
+    by_cases hmj : m = j <;> simp [hmj, this]
+  | some r =>
+    have hlt : j < w.regs.length := (List.getElem?_eq_some_iff.mp hj).1
+    by_cases hmj : m = j
+    · subst hmj; simp [hlt]
+    · have : ¬ j = m := fun h => hmj h.symm
+      simp [hmj, this]
+
+/-- the generators after one operation of the world: a new model brings its own; an in-place `shuffle`, a `shuffle_do`
+    (raising callbacks or not) replaces the generator of the set's model by the state `Rng.shuffle` leaves; nothing else
+    touches any generator -/
+def gensAfter (w : World) : Op → List Rng
+  | .newModel g => gens w ++ [g]
+  | .shuffle t | .shuffleDo _ _ t | .shuffleDoX _ _ _ t =>
+    (gens w).set (t.model w) (Rng.shuffle (members w t) (rngOf w t)).2
+  | _ => gens w
+
+/-- **Only shuffles draw, whatever the callbacks do** (review 3, M14): after any single operation of the world — creations,
+    removals, `remove_all_agents`, in-place sorts, set constructions, and every activation (`do`, `map`, `GroupBy.do`,
+    `GroupBy.map`, with callbacks that remove, create, edit sets or raise) — every model's generator is exactly what it was,
+    except that a `shuffle` / `shuffle_do` leaves the generator of the set's model in the state after the one Fisher–Yates
+    pass over the live members: the walk and the callbacks of `shuffle_do` draw nothing on top of it. -/
+theorem C01_agents_only_shuffles_draw (w : World) (op : Op) : gens (step w op) = gensAfter w op := by
+  have hX : ∀ script raises arg w0 refs, gens (walkX script raises arg w0 refs).1 = gens w0 := by
+    intro script raises arg w0 refs
+    obtain ⟨pre, _, hp⟩ := walkX_fst_walk script raises arg w0 refs
+    rw [hp, walk_gens]
+  cases op with
+  | newModel g => simp [step, newModel, gens, gensAfter, Reg.new]
+  | create m ty hold x => exact createAgent_gens w m ty hold x
+  | createN m ty hold xs => exact createN_gens w m ty hold xs
+  | createAgents m ty hold n args => exact createN_gens w m ty hold _
+  | remove a => exact removeAgent_gens w a
+  | removeAll m =>
+    simp only [step, removeAll, gensAfter]
+    split
+    · rfl
+    · exact foldl_removeAgent_gens _ w
+  | unhold a => rfl
+  | shuffle t =>
+    simp only [step, shuffleInPlace, gensAfter]
+    rw [setRng_gens, byTypeSet_rng_frame]
+  | sort t asc => exact byTypeSet_rng_frame w t _
+  | mkSet m l => rfl
+  | doSet script arg t => exact walk_gens script arg w _
+  | shuffleDo script arg t =>
+    simp only [step, shuffleDo, gensAfter]
+    rw [walk_gens, setRng_gens]
+  | mapSet script arg t =>
+    simp only [step, mapSet, (walkMap_spec script arg _ w _).1, gensAfter]
+    exact walk_gens script arg w _
+  | groupDo script arg key t => exact groups_gens script arg _ w
+  | groupMap script arg key t =>
+    simp only [step, groupMap_fst, gensAfter]
+    exact groups_gens script arg _ w
+  | doSetX script raises arg t => exact hX script raises arg w _
+  | shuffleDoX script raises arg t =>
+    simp only [step, shuffleDoX, gensAfter]
+    rw [hX, setRng_gens]
+  | mapSetX script raises arg t =>
+    simp only [step, mapSetX, (walkMapX_spec script raises arg _ w _).1, gensAfter]
+    exact hX script raises arg w _
+  | groupDoX script raises arg key t =>
+    simp only [step, groupDoX_eq, gensAfter]
+    exact hX script raises arg w _
+  | groupMapX script raises arg key t =>
+    simp only [step, groupMapX, (groupsMapX_spec script raises arg _ w _).1, gensAfter]
+    have := groupDoX_eq script raises arg (key.eval w) w t
+    unfold groupDoX at this
+    rw [this]
+    exact hX script raises arg w _
+
 /-- `shuffle_do` (and the in-place `shuffle` it is equivalent to) on a set of `n` live members draws exactly `n - 1`
-    numbers from the generator of the set's model, before the first callback runs; the in-place shuffle leaves the
-    generator in the same state; and the visiting order is a function of (ordered live members, those `n - 1` draws) only:
-    any world and set with the same members and the same first `n - 1` draws visits in the same order. -/
-theorem C01_agents_shuffle_do_draws (w : World) (t : Target) (h : t.exists? w = true) :
+    numbers from the generator of the set's model, before the first callback runs, **and nothing more while the callbacks
+    run**: after the whole `shuffle_do` — whatever the callbacks removed, created or edited, and whether or not one of them
+    raised — the generators of all models are exactly those an in-place shuffle of the same set leaves (the set's model
+    advanced by `n - 1` draws, every other model untouched); and the visiting order is a function of (ordered live members,
+    those `n - 1` draws) only. -/
+theorem C01_agents_shuffle_do_draws (w : World) (t : Target) (h : t.exists? w = true)
+    (script : Aid → List Action) (raises : Aid → Bool) (arg : Nat) :
     (Rng.shuffle (members w t) (rngOf w t)).2.script = (rngOf w t).script.drop ((members w t).length - 1) ∧
     rngOf (shuffleInPlace w t) t = (Rng.shuffle (members w t) (rngOf w t)).2 ∧
+    gens (shuffleDo script arg w t) = gens (shuffleInPlace w t) ∧
+    gens (shuffleDoX script raises arg w t).1 = gens (shuffleInPlace w t) ∧
+    gens (shuffleDo script arg w t) = (gens w).set (t.model w) (Rng.shuffle (members w t) (rngOf w t)).2 ∧
+    (gens w)[t.model w]? = some (rngOf w t) ∧
     (∀ (w' : World) (t' : Target), members w' t' = members w t →
       (rngOf w' t').script.take ((members w t).length - 1) = (rngOf w t).script.take ((members w t).length - 1) →
       (Rng.shuffle (members w' t') (rngOf w' t')).1 = (Rng.shuffle (members w t) (rngOf w t)).1) := by
-  refine ⟨Rng.shuffle_script _ _, (shuffleInPlace_spec w t h).2, fun w' t' hm hs => ?_⟩
-  rw [hm]
-  exact Rng.shuffle_of_take _ _ _ hs
+  have h1 := C01_agents_only_shuffles_draw w (.shuffle t)
+  have h2 := C01_agents_only_shuffles_draw w (.shuffleDo script arg t)
+  have h3 := C01_agents_only_shuffles_draw w (.shuffleDoX script raises arg t)
+  simp only [step, gensAfter] at h1 h2 h3
+  refine ⟨Rng.shuffle_script _ _, (shuffleInPlace_spec w t h).2, by rw [h1, h2], by rw [h1, h3], h2, ?_, fun w' t' hm hs => ?_⟩
+  · have hm : t.model w < w.regs.length := by
+      cases t with
+      | all m => simpa [Target.exists?, Target.model] using h
+      | byType m ty =>
+        simp only [Target.exists?] at h
+        cases hr : w.regs[m]? with
+        | none => simp [hr] at h
+        | some r => simpa [Target.model] using (List.getElem?_eq_some_iff.mp hr).1
+      | set k =>
+        simp only [Target.exists?] at h
+        cases hs : w.sets[k]? with
+        | none => simp [hs] at h
+        | some p => obtain ⟨m, l⟩ := p; simpa [hs, Target.model] using h
+    simp [gens, rngOf, List.getElem?_eq_getElem hm]
+  · rw [hm]
+    exact Rng.shuffle_of_take _ _ _ hs
 
 /-- the generator handle (model index) each program-made set carries -/
 def handles (w : World) : List Nat := w.sets.map (·.1)
@@ -304,3 +529,10 @@ example : Mesa.Agents.handles (Mesa.Agents.run Mesa.Agents.World.empty
     [.newModel ⟨[1, 2]⟩, .newModel ⟨[3, 4]⟩, .create 0 0 true [], .create 1 0 true [], .mkSet 1 [0, 1], .mkSet 0 [1],
      .shuffle (.set 0), .doSet (fun a => if a = 0 then [.discardFrom 0 1, .rm 1] else []) 3 (.set 0), .remove 0]) = [1, 0] := by
   decide
+
+/-- `shuffle_do` over 3 agents of model 0 whose callbacks create agents in model 1 and remove themselves: model 0's generator
+    has advanced by 2 draws, model 1's by none; a `do` and a `GroupBy.do` afterwards leave both where they are -/
+example : Mesa.Agents.gens (Mesa.Agents.run Mesa.Agents.World.empty
+    [.newModel ⟨[1, 2, 3]⟩, .newModel ⟨[3, 4]⟩, .create 0 0 true [], .create 0 0 true [], .create 0 0 true [],
+     .shuffleDo (fun _ => [.create 1 0 1 true, .rmSelf]) 3 (.all 0), .doSet (fun _ => [.create 0 1 1 false]) 1 (.all 1),
+     .groupDo (fun _ => []) 1 .ty (.all 0)]) = [⟨[3]⟩, ⟨[3, 4]⟩] := by decide
